@@ -174,8 +174,13 @@ func (a *Agent) gatherCandidates(ctx context.Context, done chan struct{}) { //no
 		if err != nil {
 			a.log.Warnf("Failed to get initial interfaces for monitoring: %v", err)
 		} else {
-			for _, info := range addrs {
-				a.lastKnownInterfaces[info.addr.String()] = info.addr
+			// lastKnownInterfaces is agent state: a canceled cycle and its successor may both get here.
+			if err := a.loop.Run(ctx, func(context.Context) {
+				for _, info := range addrs {
+					a.lastKnownInterfaces[info.addr.String()] = info.addr
+				}
+			}); err != nil {
+				a.log.Warnf("Failed to record initial interfaces for monitoring: %v", err)
 			}
 			a.log.Infof("Initialized network monitoring with %d IP addresses", len(addrs))
 		}
@@ -1500,14 +1505,18 @@ func (a *Agent) detectNetworkChanges() bool {
 
 	hasAdditions := false
 
-	for key, addr := range currentInterfaces {
-		if _, exists := a.lastKnownInterfaces[key]; !exists {
-			a.log.Infof("New IP address detected: %s", addr)
-			hasAdditions = true
+	if err := a.loop.Run(a.loop, func(context.Context) {
+		for key, addr := range currentInterfaces {
+			if _, exists := a.lastKnownInterfaces[key]; !exists {
+				a.log.Infof("New IP address detected: %s", addr)
+				hasAdditions = true
+			}
 		}
-	}
 
-	a.lastKnownInterfaces = currentInterfaces
+		a.lastKnownInterfaces = currentInterfaces
+	}); err != nil {
+		return false
+	}
 
 	return hasAdditions
 }
